@@ -45,7 +45,7 @@ def run(ctx):
     for name, line in viols:
         by_key.setdefault(key_for(name, line), (name, line))
     known = {k["key"] for k in vlib.load_known().get("findings", []) if k["property"] == "C04"}
-    for key, (name, line) in sorted(by_key.items()):
+    for key, (name, line) in sorted(vlib.limit_new(by_key, "C04").items()):
         if key not in known:
             # confirm on an otherwise idle run of just that function/operator with a longer watchdog
             tf2, _, _ = produce(ctx, "confirm", ["-seed", str(ctx.seed + 1), "-triples", "8" if q else "14", "-watchdog", "6s" if q else "20s", "-templates", "0", "-only", line["fn"]])
